@@ -102,6 +102,10 @@ type ovsdbClient struct {
 	disconnect    chan struct{}
 	shutdown      bool
 	shutdownMutex sync.Mutex
+	// reconnecting is set (under rpcMutex) from the loss of a connection until
+	// a connection is set up again: whoever connects in between, the retry
+	// loop or a Connect call, has to restart the monitors
+	reconnecting bool
 
 	handlerShutdown *sync.WaitGroup
 
@@ -246,6 +250,18 @@ func (o *ovsdbClient) connect(ctx context.Context, reconnect bool) error {
 	if o.rpcClient != nil {
 		return ErrAlreadyConnected
 	}
+	if o.reconnecting {
+		reconnect = true
+	}
+	if reconnect {
+		// need to ensure deferredUpdates is cleared on every reconnect attempt
+		for _, db := range o.databases {
+			db.cacheMutex.Lock()
+			db.deferredUpdates = make([]*bufferedUpdate, 0)
+			db.deferUpdates = true
+			db.cacheMutex.Unlock()
+		}
+	}
 
 	connected := false
 	connectErrors := []error{}
@@ -333,6 +349,7 @@ func (o *ovsdbClient) connect(ctx context.Context, reconnect bool) error {
 	go o.handleDisconnectNotification()
 
 	o.connected = true
+	o.reconnecting = false
 	return nil
 }
 
@@ -1361,6 +1378,7 @@ func (o *ovsdbClient) handleDisconnectNotification() {
 	if o.options.reconnect && !o.shutdown {
 		o.rpcClient = nil
 		// SetOption is allowed from now on: take what is needed under the lock
+		o.reconnecting = true
 		timeout, reconnectBackoff := o.options.timeout, o.options.backoff
 		lostEndpoint := ""
 		if len(o.endpoints) > 0 {
@@ -1369,16 +1387,13 @@ func (o *ovsdbClient) handleDisconnectNotification() {
 		o.rpcMutex.Unlock()
 		suppressionCounter := 1
 		connect := func() error {
-			// need to ensure deferredUpdates is cleared on every reconnect attempt
-			for _, db := range o.databases {
-				db.cacheMutex.Lock()
-				db.deferredUpdates = make([]*bufferedUpdate, 0)
-				db.deferUpdates = true
-				db.cacheMutex.Unlock()
-			}
 			ctx, cancel := context.WithTimeout(context.Background(), timeout)
 			defer cancel()
 			err := o.connect(ctx, true)
+			if err == ErrAlreadyConnected {
+				// a Connect call got there first and restarted the monitors
+				return nil
+			}
 			if err != nil {
 				if suppressionCounter < 5 {
 					o.logger.V(2).Error(err, "failed to reconnect")
